@@ -205,6 +205,7 @@ func vsUFBytes(name string, outLen int, args ...[]byte) []byte
 func vsLockHeld(p interface{}) bool
 func vsAnyLockHeld() bool
 func vsRunUntilBlocked(f func()) bool
+func vsSetLockHook(f func(lock string))
 `
 
 func loadProgram(cfg *PropCfg, hdir string) (*ssa.Program, []*ssa.Package, map[string]*ssa.Package) {
